@@ -26,11 +26,30 @@
 -/
 import DfolsVerif.Proofs.Dykstra
 import DfolsVerif.Driver.DykstraDrv
+import DfolsVerif.Gen.DykstraFns
 
 namespace Dfols
 namespace C15
 
 open Dykstra
+
+/-! ### layer G (translated code): util.dykstra's loop body, pball, and the loop skeleton -/
+
+/-- the body of `for i in range(p)` in `util.dykstra`, as translated from /repo's AST on this run, is the
+    kernel's `sub1`; `pball` is the kernel's `pball` (`rfl`) -/
+theorem gen_dykstra_body {V S : Type} (o : Ops V S) (P : V → V) (x y : V) :
+    Gen.dykstraBody o P x y = sub1 o P x y := rfl
+
+theorem gen_pball {V S : Type} (b : BallOps V S) (x c : V) (r : S) : Gen.pball b x c r = pball b x c r := rfl
+
+/-- the code around that body — initialisation, `while n < max_iter and cI >= tol`, `cI = 0` before each sweep,
+    `n += 1` after it, `return x`, the default `max_iter`/`tol` — and `pbox`'s expression are what `loop`,
+    `dykstraFull` and `pbox` mirror -/
+theorem gen_dykstra_skeleton :
+    Gen.dykstraSkeleton = ["x = x0.copy()", "p = len(P)", "y = np.zeros((p, x0.shape[0]))", "n = 0", "cI = float('inf')",
+      "while n < max_iter and cI >= tol", "  cI = 0", "  for i in range(0, p): <body>", "  n += 1", "return x",
+      "signature P, x0, max_iter=100, tol=1e-10"] ∧
+    Gen.pboxSrc = "np.minimum(np.maximum(x, l), u)" := by decide +kernel
 
 /-- **feasibility from the stopping rule.**  `Ps` arbitrary maps with `P_i v ∈ C_i`; if the routine
     stops by its tolerance rule (a sweep was made and it left with `cI < tol`) the returned point is
